@@ -17,7 +17,7 @@ use proptest::strategy::BoxedStrategy;
 use redis_sim::redis::Command;
 use serde::{Deserialize, Serialize};
 use serde_json::json;
-use state::{av, b, pool_key, pool_keys, show_raw, state_steps, Step, World};
+use state::{av, b, pool_key, pool_keys, set_kind, show_raw, state_steps, Step, World};
 use vcore::dump::{show_dump, Dump};
 use forms::{mutated, targeted};
 use vcore::gen::{cmd_name, GenOpts};
@@ -100,6 +100,64 @@ fn any_command() -> BoxedStrategy<Argv> {
         1 => mutated(&o),
     ]
     .boxed()
+}
+
+/// A last-moment setup aimed at one failure: (extra steps, command).
+fn aimed() -> BoxedStrategy<(Vec<Step>, Argv)> {
+    (any::<u16>(), any::<u16>(), 0u8..30, vcore::gen::value(), 0u8..4)
+        .prop_map(|(i1, i2, sel, v, ttl)| {
+            let k = pool_key(i1);
+            let mut k2 = pool_key(i2);
+            if k2 == k {
+                k2 = b("k-other");
+            }
+            let ks = String::from_utf8_lossy(&k).into_owned();
+            let k2s = String::from_utf8_lossy(&k2).into_owned();
+            let (kind, kind2, cmd): (u8, Option<u8>, Vec<&str>) = match sel {
+                0 => (1, None, vec!["INCR", &ks]),
+                1 => (1, None, vec!["INCRBY", &ks, "1"]),
+                2 => (1, None, vec!["DECRBY", &ks, "-1"]),
+                3 => (2, None, vec!["DECR", &ks]),
+                4 => (2, None, vec!["INCRBY", &ks, "-1"]),
+                5 => (0, None, vec!["DECRBY", &ks, "-9223372036854775808"]),
+                6 => (3, None, vec!["INCRBYFLOAT", &ks, "1.5e308"]),
+                7 => (4, None, vec!["INCRBYFLOAT", &ks, "1"]),
+                8 => (4, None, vec!["INCR", &ks]),
+                9 => (8, None, vec!["HINCRBY", &ks, "c", "1"]),
+                10 => (8, None, vec!["HINCRBY", &ks, "", "-1"]),
+                11 => (8, None, vec!["HINCRBY", &ks, "b", "1"]),
+                12 => (5, None, vec!["LSET", &ks, "3", "v"]),
+                13 => (5, None, vec!["LSET", &ks, "-4", "v"]),
+                14 => (5, Some(4), vec!["RPOPLPUSH", &ks, &k2s]),
+                15 => (6, Some(7), vec!["RPOPLPUSH", &ks, &k2s]),
+                16 => (5, Some(8), vec!["LMOVE", &ks, &k2s, "LEFT", "LEFT"]),
+                17 => (6, Some(9), vec!["LMOVE", &ks, &k2s, "RIGHT", "LEFT"]),
+                18 => (9, Some(4), vec!["SORT", &ks, "STORE", &k2s]),
+                19 => (8, Some(5), vec!["SORT", &ks, "STORE", &k2s]),
+                20 => (0, None, vec!["SETRANGE", &ks, "536870913", "x"]),
+                21 => (0, None, vec!["SETBIT", &ks, "4294967296", "1"]),
+                22 => (4, None, vec!["GETEX", &ks, "EX", "0"]),
+                23 => (4, None, vec!["GETEX", &ks, "PX", "-5"]),
+                24 => (0, None, vec!["EXPIRE", &ks, "9223372036854775807"]),
+                25 => (0, None, vec!["PEXPIRE", &ks, "9223372036854775807"]),
+                26 => (5, None, vec!["SET", &ks, "v", "GET"]),
+                27 => (9, None, vec!["ZRANGEBYSCORE", &ks, "abc", "1"]),
+                28 => (9, None, vec!["ZCOUNT", &ks, "1", "("]),
+                _ => (7, Some(5), vec!["RENAME", &k2s, &ks]),
+            };
+            let _ = v;
+            let mut steps = set_kind(&k, kind);
+            if let Some(k2kind) = kind2 {
+                steps.extend(set_kind(&k2, k2kind));
+            }
+            match ttl {
+                1 => steps.push(Step::Cmd(vec![b("PEXPIRE"), k.clone(), b("500")])),
+                2 => steps.push(Step::Cmd(vec![b("EXPIRE"), k2.clone(), b("100")])),
+                _ => {}
+            }
+            (steps, av(&cmd))
+        })
+        .boxed()
 }
 
 fn final_command() -> BoxedStrategy<Final> {
@@ -256,6 +314,30 @@ fn check(case: &Case, ctx: &mut CaseCtx<'_>) -> Result<(), String> {
     }
     if failed {
         ctx.label(&format!("error:{}", reply.error_code().unwrap_or_default()));
+        let t = reply.error_text().unwrap_or_default();
+        for (needle, class) in [
+            ("would overflow", "why:int_overflow"),
+            ("NaN or Infinity", "why:float_overflow"),
+            ("hash value is not an integer", "why:hash_not_int"),
+            ("not an integer or out of range", "why:not_int"),
+            ("not a valid float", "why:not_float"),
+            ("index out of range", "why:index_range"),
+            ("no such key", "why:no_such_key"),
+            ("invalid expire time", "why:expire_time"),
+            ("maximum allowed size", "why:string_size"),
+            ("bit offset", "why:bit_offset"),
+            ("min or max", "why:score_bound"),
+            ("without MULTI", "why:no_multi"),
+            ("NOSCRIPT", "why:noscript"),
+            ("value is out of range", "why:decrby_min"),
+        ] {
+            if t.contains(needle) {
+                ctx.label(class);
+            }
+        }
+        if t.contains("WRONGTYPE") && cmd.get_keys().len() >= 2 {
+            ctx.label("why:wrongtype_two_key");
+        }
     }
     if matches!(case.fin, Final::Script { .. }) {
         ctx.label("script");
@@ -284,8 +366,8 @@ fn check(case: &Case, ctx: &mut CaseCtx<'_>) -> Result<(), String> {
             .take(3)
             .map(|k| before.get(k).map(|d| d.ty.clone()).unwrap_or_else(|| "-".into()))
             .collect();
-        let mut t = text.clone();
-        t.truncate(48);
+        let t = text.clone();
+        let t: String = t.chars().take(48).collect();
         ctx.nontrivial(&(name.clone(), matches!(case.fin, Final::Script { .. }), t, types));
     }
 
@@ -391,8 +473,22 @@ fn main() {
 
     s.run_cases(
         "fail_or_ro",
-        s.scale(40_000, 2_000_000),
-        || (state_steps(6, 8), final_command()).prop_map(|(steps, fin)| Case { steps, fin }),
+        s.scale(150_000, 6_000_000),
+        || {
+            prop_oneof![
+                4 => (state_steps(6, 8), final_command()).prop_map(|(steps, fin)| Case { steps, fin }),
+                // state, then a last-moment setup aimed at one failure (direct or via script)
+                1 => (state_steps(4, 6), aimed(), 0u8..8, any::<u16>()).prop_map(|(mut steps, (extra, cmd), wrap, k)| {
+                    steps.extend(extra);
+                    let fin = if wrap < 4 {
+                        Final::Script { shape: wrap, key: pool_key(k), inner: cmd }
+                    } else {
+                        Final::Direct(cmd)
+                    };
+                    Case { steps, fin }
+                }),
+            ]
+        },
         check,
     );
 
